@@ -802,7 +802,6 @@ fn run_case(line: &str, drv: &mut Driver, rep: &mut Report) {
         .build(re.as_str())
         .ok();
     let has_crlf_aware_look = c.pats.iter().any(|p| p.contains("(?R"));
-    let has_haystack_anchor = c.pats.iter().any(|p| p.contains("\\A") || p.contains("\\z") || p.contains("(?-m:"));
     let has_unicode_word_look = c.word || c.pats.iter().any(|p| p.contains("\\b") || p.contains("\\B"));
     let mut crosses_terminator = false;
     let mut ctx_dependent = false;
@@ -881,16 +880,8 @@ fn run_case(line: &str, drv: &mut Driver, rep: &mut Report) {
                 // line's terminator in the buffer, onto the start of the haystack on the slice), and `follows_ctx`.
                 let cont_bytes = cont.iter().take_while(|&&x| (0x80..=0xBF).contains(&x)).count();
                 let f24 = path == "fast" && has_unicode_word_look && idx > 0 && (1..=3).contains(&cont_bytes) && follows_ctx;
-                // --- `nul-terminator-haystack-anchor-fastpath`. Mechanism: NUL terminator, fast path (taken because NUL is
-                // a non-matching byte although the matcher withholds its line terminator), the pattern has a haystack
-                // anchor (`\A`, `\z`, `(?-m:^)`, `(?-m:$)`), which holds at the ends of the BUFFER instead of the ends of the
-                // line: verdict in buffer context ≠ verdict on the slice, property agrees with the slice, searcher follows
-                // the buffer.
-                let fnul = cfg.lt == Lt::Nul && path == "fast" && has_haystack_anchor && follows_ctx;
                 let cl = if crosses_terminator {
                     ""
-                } else if fnul {
-                    "nul-terminator-haystack-anchor-fastpath"
                 } else if f18 {
                     "crlf-cr-unmatchable"
                 } else if f1 {
@@ -993,7 +984,7 @@ fn main() {
          -i, -F, several -e) over generated patterns with anchors, word boundaries, \\r, classes, empty alternatives; inputs with \
          lone CR, bare LF under CRLF, NUL, invalid UTF-8, empty lines, missing final terminator; inversion; passthru (forces the slow \
          path). Non-trivial = the pattern uses >= 2 kinds of operators and the input has both selected and unselected lines. \
-         Haystack anchors \\A \\z are not generated (excluded by the property). Two further streams: -w (word(true)) over patterns LIT (gap LIT) LIT \
+         Two further streams: -w (word(true)) over patterns LIT (gap LIT) LIT \
          with matching lines, so that ripgrep's own inner-literal extraction is exercised, and -S (case_smart(true)) over patterns whose \
          uppercase letters sit only under repetitions / groups / classes / escapes, with case variants as input; the reference decides \
          smart case from the documented rule on the pattern text and wraps -w in the Unicode half-word assertions. Three more streams: \
@@ -1001,7 +992,10 @@ fn main() {
          (limit_repeat 10, limit_class 10, limit_literal_len 100, limit_total 64) under -w, a leading \\b or a class-prefixed alternative, \
          with matching and near-miss lines; -S with literal-free patterns (Unicode / POSIX case classes); terminator-capable classes and \
          literal terminators inside capturing groups with the two halves of a would-be match on consecutive lines. A match that contains \
-         a terminator byte is never attributed to a known finding.",
+         a terminator byte is never attributed to a known finding. A probe stream lifts the restrictions of the others at once: haystack \
+         anchors, half-word / start / end word assertions, (?s:.), (?-u:...), case-insensitive non-ASCII letters, empty alternation branches; \
+         -i -S -w -x -F (also with \\n / \\r in the literal) in every combination with LF / CRLF / NUL; context sizes, line numbers off, \
+         stop_on_nonmatch; invalid UTF-8 next to matches, lone CR, NUL, a long line.",
     );
     for c in corpus_cases(&args) {
         run_case(&c, &mut drv, &mut rep);
